@@ -530,6 +530,16 @@ def run_real(desc):
             data = {k: vis(v) for k, v in rec['data'].items()}
             log.append(('ev', rec['etype'], data, clock()))
         harness.Recorder('rec', x_log=[], x_hook=rechook)
+        if desc.get('bad_stoppers'):
+            class BadStop(edzed.SBlock):
+                def init_regular(self):
+                    self.set_output(0)
+
+                def stop(self):
+                    super().stop()
+                    raise RuntimeError('clean-up of this block failed')
+            for k in range(desc['bad_stoppers']):
+                BadStop(f'badstop{k}')
         if desc.get('flaky'):
             until = desc['flaky']['until']
 
